@@ -51,6 +51,8 @@ extern "C" {
   void vf_havoc(void* p, uint64_t n) { for (uint64_t i = 0; i < n; i++) ((uint8_t*)p)[i] = (uint8_t)draw(); }
   void vf_end(void) { finish("VF-END", 0); }
   uint64_t vf_buffer_room(const void*) { return UINT64_MAX; }
+  // overwrite the part of the stack the next calls will use with a pattern (C18: "automatic-variable fill pattern")
+  __attribute__((noinline)) void vf_scribble_stack(uint8_t pattern) { volatile unsigned char junk[32768]; for (unsigned i = 0; i < sizeof junk; i++) junk[i] = (unsigned char)(pattern + i * 7); }
 
   uint8_t* vfs_data(int i) { return g_files[i].data; }
   void vfs_set(int i, const char* name, int exists, uint64_t size) { g_files[i].name = name; g_files[i].exists = exists; g_files[i].size = size; }
@@ -106,7 +108,15 @@ static void sync_all() {
 // while the harness entry runs)
 static bool g_armed;
 #define VF_NATIVE_MAX_ALLOC ((VF_MAX_ALLOC) < 65536 ? 65536 : (VF_MAX_ALLOC))
-void* operator new(std::size_t n) { if (g_armed && n > VF_NATIVE_MAX_ALLOC) throw std::bad_alloc(); void* p = malloc(n ? n : 1); if (!p) throw std::bad_alloc(); return p; }
+// fresh heap memory holds garbage that differs from one allocation to the next (C18: outputs must not depend on it)
+static unsigned g_alloc_counter;
+void* operator new(std::size_t n) {
+  if (g_armed && n > VF_NATIVE_MAX_ALLOC) throw std::bad_alloc();
+  void* p = malloc(n ? n : 1); if (!p) throw std::bad_alloc();
+  unsigned seed = ++g_alloc_counter * 2654435761u;
+  for (std::size_t i = 0; i < n && i < 4096; i++) ((unsigned char*)p)[i] = (unsigned char)((seed >> (8 * (i & 3))) + 31 * i);
+  return p;
+}
 void* operator new[](std::size_t n) { return operator new(n); }
 void operator delete(void* p) noexcept { free(p); }
 void operator delete[](void* p) noexcept { free(p); }
